@@ -235,6 +235,31 @@ def clause5(P, res):
             res.violated(rid, key, f"effect sequences differ: Container {sa} vs LocalContainer {sl}", where=f"{l[nm].file}:{l[nm].line}")
 
 
+PROVIDER_MUTATORS = {"insert", "remove", "get_mut", "try_get_mut", "entry", "try_entry", "alter", "alter_all", "retain", "clear", "iter_mut", "remove_if", "remove_if_mut", "get_or_insert_with"}
+
+
+def clause6(P, res):
+    import re
+    rid = "C18-6"
+    res.rule(rid, "only registration writes the provider table: every mutating call on a container's `providers` map (insert, remove, get_mut/try_get_mut, entry, alter, "
+                  "retain, clear) lies in an add_*_internal registration function (or Drop/clear of the container); the resolution path only reads — a resolver that "
+                  "writes back (caching a resolved instance into the table) after releasing the entry can overwrite a newer registration")
+    n = 0
+    for b in ioc_bodies(P):
+        for e in b.calls():
+            if e.method in PROVIDER_MUTATORS and e.args and re.search(r"(^|\.)providers$", b.path_of_operand(e.args[0])):
+                n += 1
+                root = P.body(b.root) if b.root and P.body(b.root) else b
+                key = f"{b.id}:{e.method}"
+                if re.search(r"::add_\w+_internal$", root.id) or root.name in ("clear", "drop"):
+                    res.holds(rid, key, f"registration writes the table ({root.name})", where=e.loc)
+                else:
+                    res.violated(rid, key, f"{root.name} mutates the provider table at {e.loc} outside a registration function: a write-back from the resolution path is not "
+                                 "ordered with re-registration of the key (the latest registration can be overwritten by a stale product)", where=e.loc)
+    if n < 6:
+        res.unclassified(rid, "provider-writes", f"expected >= 6 provider-table writes in the registration functions, found {n}", where="rules/c18.py")
+
+
 def run(P, ctx):
     res = Result("C18")
     res.extra["explanation"] = "Once-cell, cycle-guard, key-identity, overwrite and sibling-agreement shapes of fibre_ioc (global, instance and local containers)."
@@ -243,5 +268,6 @@ def run(P, ctx):
     clause3(P, res)
     clause4(P, res)
     clause5(P, res)
+    clause6(P, res)
     res.extra["assumptions"] = ["at-most-once initialisation under races is delegated to once_cell (trusted)"]
     return res
